@@ -1,4 +1,5 @@
 SPECIFICATION TraceSpec
+CONSTANT UseCb = FALSE
 CONSTANT Points = {}
 CHECK_DEADLOCK FALSE
 POSTCONDITION TraceConsumed
